@@ -33,17 +33,17 @@ def extra_entries():
     N = Entry
     um = lambda x: E(S("unpack-mapping"), x)
     ui = lambda x: E(S("unpack-iterable"), x)
-    N("c11/list-dstar", lambda a, b: List([a, um(b)]), [B, B], U_)
-    N("c11/tuple-dstar", lambda a, b: Tuple([a, um(b)]), [B, B], U_)
-    N("c11/set-dstar", lambda a, b: Set([a, um(b)]), [B, B], U_)
+    N("c11/list-dstar", lambda a, b: List([a, um(b)]), [B, B], U_).rejected = True          # a #** / #* where Python has no such thing: must be a Hy error, never dropped
+    N("c11/tuple-dstar", lambda a, b: Tuple([a, um(b)]), [B, B], U_).rejected = True          # a #** / #* where Python has no such thing: must be a Hy error, never dropped
+    N("c11/set-dstar", lambda a, b: Set([a, um(b)]), [B, B], U_).rejected = True          # a #** / #* where Python has no such thing: must be a Hy error, never dropped
     N("c11/set-star", lambda a, b: Set([a, ui(b)]), [B, B], U_)
-    N("c11/dict-star", lambda a, b, c: Dict([a, b, ui(c)]), [V, V, B], U_)
-    N("c11/get-dstar", lambda o, i: E(S("get"), o, um(i)), [B, B], U_)
-    N("c11/op-dstar", lambda a, b: E(S("+"), a, um(b)), [B, B], U_)
-    N("c11/cmp-dstar", lambda a, b: E(S("<"), a, um(b)), [B, B], U_)
-    N("c11/fstring-dstar", lambda a, b: hm.FString([hm.FComponent([a, um(b)])]), [B, B], U_)
-    N("c11/try-types-dstar", lambda b, t, h: E(S("try"), b, E(S("except"), List([List([t, um(h)])]), Integer(1))), [P, P, P], U_)
-    N("c11/decorator-dstar", lambda d, b: E(S("defn"), List([um(d)]), U("f"), List([]), b), [B, P], U_)
+    N("c11/dict-star", lambda a, b, c: Dict([a, b, ui(c)]), [V, V, B], U_).rejected = True          # a #** / #* where Python has no such thing: must be a Hy error, never dropped
+    N("c11/get-dstar", lambda o, i: E(S("get"), o, um(i)), [B, B], U_).rejected = True          # a #** / #* where Python has no such thing: must be a Hy error, never dropped
+    N("c11/op-dstar", lambda a, b: E(S("+"), a, um(b)), [B, B], U_).rejected = True          # a #** / #* where Python has no such thing: must be a Hy error, never dropped
+    N("c11/cmp-dstar", lambda a, b: E(S("<"), a, um(b)), [B, B], U_).rejected = True          # a #** / #* where Python has no such thing: must be a Hy error, never dropped
+    N("c11/fstring-dstar", lambda a, b: hm.FString([hm.FComponent([a, um(b)])]), [B, B], U_).rejected = True          # a #** / #* where Python has no such thing: must be a Hy error, never dropped
+    N("c11/try-types-dstar", lambda b, t, h: E(S("try"), b, E(S("except"), List([List([t, um(h)])]), Integer(1))), [P, P, P], U_).rejected = True          # a #** / #* where Python has no such thing: must be a Hy error, never dropped
+    N("c11/decorator-dstar", lambda d, b: E(S("defn"), List([um(d)]), U("f"), List([]), b), [B, P], U_).rejected = True          # a #** / #* where Python has no such thing: must be a Hy error, never dropped
     N("c11/class-base-dstar", lambda d: E(S("defclass"), U("C"), List([um(d)])), [B], U_)
     N("c11/call-kw-dstar-mix", lambda f, a, b, c: E(f, um(a), K("k"), b, ui(c)), [P, B, B, B], U_)
     N("c11/method-star", lambda o, a, b: E(S("."), o, E(U("m"), ui(a), um(b))), [P, B, B], U_)
